@@ -820,6 +820,35 @@ impl C15 {
             if kind == Kind::Pool && POOL_IS_THE_NAME.contains(&name) {
                 continue;
             }
+            // an account of the wrong TYPE under the right program: the bytes of the right token account continued to the
+            // length of a token-program multisig (355 bytes), at another address, owned by either genuine token program
+            if matches!(kind, Kind::TokenAccount(_)) && slot.contains("position") {
+                if let Some(a) = l.get(&m.pubkey) {
+                    for prog in [ix::tok(), ix::tok22()] {
+                        let mut d = a.data[..165.min(a.data.len())].to_vec();
+                        d.resize(355, 0);
+                        d[165] = 2;
+                        let fk = scratch_key(salt, 6400 + i as u64);
+                        let mut f = l.clone();
+                        f.put(fk, Account::new(world::rent_min(355), d, prog));
+                        // the genuine account no longer holds the token (one token, one holder)
+                        if let Some(orig) = f.accts.get_mut(&m.pubkey) {
+                            let mut od = (*orig.data).clone();
+                            od[64..72].copy_from_slice(&0u64.to_le_bytes());
+                            orig.data = std::rc::Rc::new(od);
+                        }
+                        let mut ixn = v.ix.clone();
+                        ixn.accounts[i].pubkey = fk;
+                        let r = exec(&f, ixn);
+                        cov.eval(format!("{}|{}|multisig_sized_account", name, slot));
+                        self.cell(format!("{} / {} / multisig-sized account of a token program carrying the token account's bytes", name, slot), !r.ok);
+                        if r.ok {
+                            out.push(v15("foreign_account_accepted", idx, format!("{}: succeeded with a multisig-sized (355-byte) account of {} carrying the bytes of the position token account in the `{}` slot", name, prog, slot)));
+                            return;
+                        }
+                    }
+                }
+            }
             // forged clone: the very bytes of the right account at another address, owned by a program that is not
             // the account's owner (a stranger, or a look-alike id sharing the owner's leading and trailing bytes)
             // (the trader's / owner's own token accounts are not pool accounts: an unused one is never looked at)
@@ -958,6 +987,31 @@ impl C15 {
                         return;
                     }
                 }
+            }
+        }
+        // a second token account of the same mint under the pool's own authority (what a reward vault of this pool is when the
+        // reward mint equals one of the pool's tokens): the token program will move tokens out of it on the pool's
+        // signature, so only the program's own address check stands between it and the vault slot
+        for (i, m) in v.ix.accounts.iter().enumerate() {
+            let slot = c.info.accounts.get(i).cloned().unwrap_or("remaining");
+            if !(slot.starts_with("token_vault") || slot == "reward_vault") {
+                continue;
+            }
+            let Some(a) = l.get(&m.pubkey).cloned() else { continue };
+            if !(a.owner == ix::tok() || a.owner == ix::tok22()) || a.data.len() < 165 {
+                continue;
+            }
+            let twin = scratch_key(salt, 6600 + i as u64);
+            let mut f = l.clone();
+            f.put(twin, Account::new(a.lamports, (*a.data).clone(), a.owner));
+            let mut ixn = v.ix.clone();
+            ixn.accounts[i].pubkey = twin;
+            let r = exec(&f, ixn);
+            cov.eval(format!("{}|{}|pool_controlled_twin_of_the_vault", name, slot));
+            self.cell(format!("{} / {} / another token account of the same mint under the pool's own authority", name, slot), !r.ok);
+            if r.ok {
+                out.push(v15("foreign_account_accepted", idx, format!("{}: succeeded with another token account of the same mint under the pool's own authority ({}) in the `{}` slot instead of the registered vault {}", name, twin, slot, m.pubkey)));
+                return;
             }
         }
         // the pool's own vaults in each other's slot (alone, together with the owner's accounts, or one vault twice):
